@@ -73,6 +73,8 @@ def print_expr(e):
         return "self.%s()" % e[1]
     if k == "loopidx":
         return "loop.index"
+    if k == "caller":
+        return "caller()"
     raise ValueError("unknown expression %r" % (e,))
 
 
@@ -120,6 +122,11 @@ def print_stmt(n):
         mods = (" scoped" if fl.get("scoped") else "") + (" required" if fl.get("required") else "")
         end = " " + n[1] if fl.get("endname") else ""
         return "{%% block %s%s %%}%s{%% endblock%s %%}" % (n[1], mods, print_body(n[3]), end)
+    if k == "callblock":
+        return "{%% call %s(%s) %%}%s{%% endcall %%}" % (n[1], ", ".join(print_expr(a) for a in n[2]), print_body(n[3]))
+    if k == "filter":
+        f = {"upper": "upper", "default_D": "default('D', true)"}[n[1]]
+        return "{%% filter %s %%}%s{%% endfilter %%}" % (f, print_body(n[2]))
     if k == "extends":
         return "{%% extends %s %%}" % print_expr(n[1])
     if k == "include":
@@ -146,9 +153,9 @@ def validate(ir):
                 r = walk(n[3], seen, tname)
             elif k == "if":
                 r = walk(n[2], seen, tname) or walk(n[3], seen, tname)
-            elif k in ("for", "with", "macro"):
+            elif k in ("for", "with", "macro", "callblock"):
                 r = walk(n[3], seen, tname)
-            elif k == "setblock":
+            elif k in ("setblock", "filter"):
                 r = walk(n[2], seen, tname)
             else:
                 r = None
@@ -244,6 +251,7 @@ class _HGen:
         self.used = set()  # block names defined in the template being built
         self.cur_macros = []
         self.uses_inc = False
+        self.has_mc = False
 
     # -- small pieces
     def var(self, loopy=False):
@@ -318,6 +326,8 @@ class _HGen:
                 choices.append((2, "mcall"))
             if loopy:
                 choices.append((2, "loopidx"))
+            if self.has_mc:
+                choices.append((1, "callfilter"))
             k = _weighted(d, choices)
             if k == "text":
                 items.append(self.text())
@@ -347,6 +357,8 @@ class _HGen:
                 items.append(["out", ["call", d(st.sampled_from(self.macros + self.cur_macros)), [self.const_expr()]]])
             elif k == "loopidx":
                 items.append(["out", ["loopidx"]])
+            elif k == "callfilter":
+                items.extend(self.call_or_filter(lvl))
         return items
 
     def loop_with_blocks(self, above, lvl, depth):
@@ -379,6 +391,22 @@ class _HGen:
         return ["for", var, vals, body]
 
     # -- templates
+    def call_or_filter(self, lvl):
+        """-> statements: a call block (preceded by the caller-macro definition when this template has
+        none yet) or a filter block; in a child these are stray content that must not render."""
+        d = self.draw
+        inner = [self.text(), ["out", ["n", self.var()]]][: d(st.integers(1, 2))]
+        if d(st.booleans()):
+            out = []
+            if not self.has_mc:
+                self.has_mc = True
+                out.append(["macro", "mc", ["a"], [["text", "mc@%d<" % lvl], ["out", ["caller"]], ["out", ["n", "a"]], ["text", ">"]]])
+            out.append(["callblock", "mc", [self.const_expr()], inner])
+            return out
+        if d(st.integers(0, 2)) == 0:
+            return [["filter", "default_D", []]]
+        return [["filter", "upper", inner]]
+
     def macro_def(self, lvl):
         d = self.draw
         name = d(st.sampled_from(["m0", "m1"]))
@@ -403,9 +431,10 @@ class _HGen:
             else:
                 choices = [(2, "text"), (2, "out"), (9 if free else 0, "block"), (2 if free else 0, "loop"), (3, "set"),
                            (1, "macro"), (2 if free else 0, "ifblock"), (1, "strayloop"), (1 if free else 0, "withblock"),
-                           (1 if free else 0, "setblock"), (2, "include")]
+                           (1 if free else 0, "setblock"), (2, "include"), (3, "callfilter")]
             if is_root:
                 choices.append((1, "include"))
+                choices.append((1, "callfilter"))
             k = _weighted(d, choices)
             if k == "text":
                 items.append(self.text())
@@ -440,6 +469,8 @@ class _HGen:
                 # a set block captures: a block inside it *is* rendered in place, output goes to the variable
                 node = self.block_node(d(st.sampled_from(free)), lvl, 1, in_loop=False, force_plain=True)
                 items.append(["setblock", "u", [self.text(), node]])
+            elif k == "callfilter":
+                items.extend(self.call_or_filter(lvl))
             elif k == "include":
                 # in a child this is stray content (must not render); in the root it renders in place
                 self.uses_inc = True
@@ -457,6 +488,7 @@ class _HGen:
         self.macros = sorted(set(self.macros) | set(self.cur_macros))
         self.used = set()
         self.cur_macros = []
+        self.has_mc = False
 
 
 @st.composite
@@ -723,7 +755,7 @@ class _MGen:
         n = d(st.integers(1, self.size + 1))
         for _ in range(n):
             k = _weighted(d, [(3, "set"), (4, "include"), (4, "import"), (4, "for"), (3, "with"), (3, "macro"), (2, "setblock"),
-                              (1, "probe"), (1, "ifset")])
+                              (1, "probe"), (1, "ifset"), (1, "filter"), (1, "callblock")])
             if k == "set":
                 items.append(["set", d(st.sampled_from(["q", "x", "a"])), ["c", "u%d.set" % uidx]])
             elif k == "include":
@@ -751,6 +783,11 @@ class _MGen:
             elif k == "setblock":
                 items.append(["setblock", "sb", [["text", "<sb:"]] + self.inner(buffered=True) + [["text", ">"]]])
                 items.append(["out", ["n", "sb"]])
+            elif k == "filter":
+                items.append(["filter", "upper", [["text", "<f:"]] + self.inner(buffered=True) + [["text", ">"]]])
+            elif k == "callblock":
+                items.append(["macro", "mc", ["a"], [["text", "(mc:"], ["out", ["caller"]], ["out", ["n", "a"]], ["text", ")"]]])
+                items.append(["callblock", "mc", [["c", d(_WORD)]], self.inner(buffered=True)])
             elif k == "probe":
                 items.append(self.probe())
             elif k == "ifset":
